@@ -288,9 +288,10 @@ def run(ck):
             ck.notes.append("ReuseNotClosed fails only with reap timings the driver cannot enforce: lead only")
     elif not f2.finished:
         raise vf.Infra("TLC did not finish the full model for ReuseNotClosed")
+    unreproduced = None
     for sc, inv in cex:
         if schedules(ck, binary, [sc], "TLC counterexample of %s" % inv) == 0 and inv != "WatchIsCache":
-            raise vf.Infra("the counterexample of %s was not reproduced by the real code: the model does not describe the code" % inv)
+            unreproduced = "the counterexample of %s was not reproduced by the real code: the model does not describe the code" % inv
     # (3) seeded behaviours of the specification, enforced on the real transports: first a selection that takes
     # every reachable (cell, branch) of the table through a Decide step, then seeded ones up to the budget
     scs = _dedupe(s.printed)
@@ -323,6 +324,10 @@ def run(ck):
     for lo in range(0, len(chosen), 200):
         schedules(ck, binary, chosen[lo:lo + 200], "seeded behaviour")
     e2e(ck, binary)
+    if unreproduced and not ck.viol:       # inconclusive only if nothing else was found: the seeded behaviours and the end-to-end runs were still judged
+        raise vf.Infra(unreproduced)
+    if unreproduced:
+        ck.notes.append(unreproduced)
     if ck.extra.get("divergent") and not ck.viol:
         raise vf.Infra("the real code diverged from Reuse.tla without breaking a clause: " + "; ".join(ck.notes[-2:]))
 
